@@ -70,6 +70,7 @@ Theorem C02_circuit_dense :
   forall E : Qc -> R, (forall a b, E (a + b)%Qc = rmul (E a) (E b)) -> E 0%Qc = rI -> E 1%Qc = ropp rI ->
   forall half : R, radd half half = rI -> forall ta tb tc : Qc,
   forall (n : nat) (c : list cinstr) (ops : list (op nat)), ccircuit_ops c = Some ops -> forallb (cinstr_lanes_ok n) c = true ->
+  ccircuit_ok R rO rI radd rmul ropp E half ta tb tc (kinit R rO rI n) c = true ->
   exists C, sq2 R rO rI radd rmul ropp E half ta tb tc C /\ forall b, exists e : Qc,
     st_of R rO rI radd rmul ropp E half ta tb tc n (final_vec (run n b ops (init_state n)))
     = Amp.scale R rmul (rmul (E e) C)
